@@ -11,6 +11,11 @@ carries a history `pg = {"mode", "procs", "steps"}`:
   ["preview", kind]       a throwaway sampler with default arguments is constructed, next(iter(s)) taken
   ["build", r, W, e]      THE sampler of the case is constructed with rank=r, world_size=W (None = default),
                           set_epoch(e), len(sampler), list(sampler) - recorded with the draw spies like every rank run
+  ["make", r, W, i]       the sampler of the case is CONSTRUCTED (rank=r, world_size=W, None = default) and kept as i
+  ["use", i, e]           sampler i: set_epoch(e), len(sampler), list(sampler).  Anything may happen between the two
+                          (init / destroy / re-init as another rank of another group): what the defaults meant AT
+                          CONSTRUCTION is what the sampler is - the record must be that of the sampler built with the
+                          explicit (rank, world size) of the state before its "make" step
 
 ENVIRONMENT: optional `pg["env"]` = one dict per process of variables a launcher exports (torchrun's RANK / WORLD_SIZE /
 LOCAL_RANK / LOCAL_WORLD_SIZE / GROUP_RANK / MASTER_ADDR / MASTER_PORT, SLURM_PROCID / SLURM_NTASKS / SLURM_LOCALID,
@@ -115,6 +120,7 @@ def run_process(mode, case, script, tmpdir):
     from . import samplers as S
     sim = SimGroup() if mode == "sim" else None
     out = []
+    made = {}
     for step in script:
         op = step[0]
         rec = None
@@ -145,6 +151,18 @@ def run_process(mode, case, script, tmpdir):
                     rec = {"len": int(len(s)), "first": None if first is None else int(first)}
             elif op == "build":
                 rec = S.run_rank_guarded(case, step[1], step[2], epoch=step[3])
+                if any(rec["result"].startswith(g) for g in GROUP_ERRORS):
+                    rec["result"] = "GroupError"
+            elif op == "make":
+                made[step[3]] = S.SplitRun(case, step[1], step[2])
+                _, ran_away = S.guarded(made[step[3]].make)
+                if ran_away:
+                    made[step[3]].failed = "RUNAWAY"
+            elif op == "use":
+                rec, ran_away = S.guarded(made[step[1]].use, step[2])
+                if ran_away:
+                    made[step[1]].failed = "RUNAWAY"
+                    rec = dict(S.RUNAWAY_RANK)
                 if any(rec["result"].startswith(g) for g in GROUP_ERRORS):
                     rec["result"] = "GroupError"
         except Exception as e:  # noqa
@@ -358,6 +376,18 @@ def expand(pg):
     return scripts
 
 
+def uses(pg):
+    """-> {index of a "use" step: (index of its "make" step, is it the first use of that sampler)}"""
+    made, seen, out = {}, set(), {}
+    for k, s in enumerate(pg["steps"]):
+        if s[0] == "make":
+            made[s[3]] = k
+        elif s[0] == "use" and s[1] in made:
+            out[k] = (made[s[1]], s[1] not in seen)
+            seen.add(s[1])
+    return out
+
+
 def group_of(st):
     """(rank, world) torch.distributed shows in a state, None without a group"""
     return st["joined"] if st["avail"] and st["joined"] is not None else None
@@ -379,8 +409,16 @@ def resolve(kind, rank, world, st):
 def valid(kind, pg):
     """steps well-formed and every build inside the domain rank < world size"""
     tr = trace(pg)
-    if not any(s[0] == "build" for s in pg["steps"]):
+    if not any(s[0] in ("build", "use") for s in pg["steps"]):
         return False
+    ids = []
+    for s in pg["steps"]:
+        if s[0] == "make":
+            if len(s) != 4 or s[3] in ids:
+                return False
+            ids.append(s[3])
+        if s[0] == "use" and (len(s) != 3 or s[1] not in ids):
+            return False
     if pg.get("env") is not None:
         if len(pg["env"]) != pg["procs"] or not all(isinstance(e, dict) and all(k in ENV_VARS and isinstance(v, str)
                                                                                   for k, v in e.items()) for e in pg["env"]):
@@ -400,11 +438,11 @@ def valid(kind, pg):
                 return False
             if step[0] == "avail" and pg["mode"] != "sim":
                 return False
-            if step[0] == "build" and kind != "dist":
+            if step[0] in ("build", "make") and kind != "dist":
                 r, w = resolve(kind, step[1], step[2], st)
                 if not 0 <= r < w:
                     return False
-            if step[0] == "build" and kind == "dist" and step[2] is not None and step[2] < 1:
+            if step[0] in ("build", "make") and kind == "dist" and step[2] is not None and step[2] < 1:
                 return False
     return True
 
@@ -443,6 +481,39 @@ def gen_env(rng, P):
 
 
 ENV_FRACTION = 0.5     # share of the generated histories that run under a launcher's environment
+SPLIT_FRACTION = 0.6   # share of the generated histories in which builds are split into construct ... use
+
+
+def split_builds(rng, steps, init_step):
+    """builds -> ["make"] <the group changes> ["use"] <the group as it was>: constructed without a group and used
+    after init (as whatever rank), constructed inside a group and used after destroy / as a member of the next group;
+    sometimes nothing changes in between, sometimes the sampler is used a second time (there, or at the very end)"""
+    out, tail, active, last_init, nid = [], [], False, None, 0
+    for s in steps:
+        if s[0] == "init":
+            active, last_init = True, s
+        elif s[0] == "destroy":
+            active = False
+        if s[0] != "build" or rng.random() < 0.4:
+            out.append(s)
+            continue
+        q = rng.random()
+        if q < 0.15:
+            between, after = ([["query", rng.choice(QUERIES)]] if rng.random() < 0.5 else []), []
+        elif not active:
+            between, after = [init_step()], [["destroy"]]
+        elif q < 0.55:
+            between, after = [["destroy"]], [list(last_init)]
+        else:
+            between, after = [["destroy"], init_step()], [["destroy"], list(last_init)]
+        out += [["make", s[1], s[2], nid]] + between + [["use", nid, s[3]]]
+        if rng.random() < 0.25:
+            out.append(["use", nid, rng.choice([s[3], 0, 1, 3])])
+        out += after
+        if rng.random() < 0.2:
+            tail.append(["use", nid, rng.choice([s[3], 0, 2])])
+        nid += 1
+    return out + tail
 
 
 def gen_pg(rng, kind, epoch, mode=None):
@@ -507,6 +578,8 @@ def gen_pg(rng, kind, epoch, mode=None):
             if active:
                 steps.append(["destroy"])
             steps += [init_step(), ["build", None, None, e0]]
+        if rng.random() < SPLIT_FRACTION:
+            steps = split_builds(rng, steps, init_step)
         pg = {"mode": mode_, "procs": P, "steps": steps}
         if rng.random() < ENV_FRACTION:
             pg["env"] = gen_env(rng, P)
@@ -518,8 +591,8 @@ def gen_pg(rng, kind, epoch, mode=None):
                 steps.insert(0, ["query", rng.choice(QUERIES)])
         # builds outside the domain (rank >= world size in some process) -> default arguments
         if not valid(kind, pg):
-            pg["steps"] = [["build", None, None, s[3]] if s[0] == "build" and (s[1] is not None or s[2] is not None)
-                           else s for s in steps]
+            pg["steps"] = [([s[0], None, None, s[3]] if s[0] in ("build", "make") and (s[1] is not None or s[2] is not None)
+                            else s) for s in steps]
         if valid(kind, pg):
             return pg
     raise RuntimeError("no valid history generated")
@@ -538,6 +611,17 @@ def directed(kind, epoch):
     yield {"mode": "gloo", "procs": 2, "steps": [["preview", "cb"], ["init", [1, 0], 2], ["build", None, None, e]]}
     yield {"mode": "gloo", "procs": 3, "steps": [["init", [0, 1, 2], 3], ["build", None, None, e], ["destroy"],
                                                  ["init", [1, None, 0], 2], ["build", None, None, e]]}
+    # constructed at one point of the history, used at another: what the defaults meant at construction stays
+    yield {"mode": "sim", "procs": 1, "steps": [["make", None, None, 0], ["init", [1], 2], ["use", 0, e], ["destroy"],
+                                                ["use", 0, e]]}
+    yield {"mode": "sim", "procs": 1, "steps": [["init", [2], 3], ["make", None, None, 0], ["destroy"], ["use", 0, e],
+                                                ["init", [0], 2], ["use", 0, 0]]}
+    yield {"mode": "sim", "procs": 1, "steps": [["init", [0], 2], ["make", None, None, 0], ["make", 0, None, 1],
+                                                ["make", None, 2, 2], ["destroy"], ["init", [2], 3], ["use", 0, e],
+                                                ["use", 1, e], ["use", 2, e]]}
+    yield {"mode": "gloo", "procs": 2, "steps": [["make", None, None, 0], ["init", [0, 1], 2], ["use", 0, e]]}
+    yield {"mode": "gloo", "procs": 3, "steps": [["init", [2, 0, 1], 3], ["make", None, None, 0], ["destroy"],
+                                                 ["init", [1, None, 0], 2], ["use", 0, e]]}
     # under a launcher's environment: no group (single-process script started through torchrun / srun; samplers built
     # before init_process_group), then a group whose values differ from the environment's
     torchrun = {"RANK": "1", "WORLD_SIZE": "4", "LOCAL_RANK": "1", "LOCAL_WORLD_SIZE": "4", "GROUP_RANK": "0",
@@ -593,9 +677,20 @@ def shrink_pg(kind, pg):
                 cand["env"] = [pg["env"][p]]
             if valid(kind, cand):
                 yield cand
+    for k, (m, first) in sorted(uses(pg).items()):
+        if first and sum(1 for s in steps if s[0] == "use" and s[1] == steps[k][1]) == 1:
+            # constructed and used in one go where it was used / where it was constructed
+            for at in (k, m):
+                cand_steps = [(["build", steps[m][1], steps[m][2], steps[k][2]] if i == at else s)
+                              for i, s in enumerate(steps) if i == at or i not in (k, m)]
+                cand = {**pg, "steps": cand_steps}
+                if valid(kind, cand):
+                    yield cand
     for i, s in enumerate(steps):
         if s[0] == "build" and s[3] != 0:
             yield {**pg, "steps": steps[:i] + [s[:3] + [0]] + steps[i + 1:]}
+        if s[0] == "use" and s[2] != 0:
+            yield {**pg, "steps": steps[:i] + [s[:2] + [0]] + steps[i + 1:]}
         if s[0] == "init" and pg["mode"] == "sim" and s[2] > 2:
             cand = {**pg, "steps": steps[:i] + [["init", [min(s[1][0], 1)], 2]] + steps[i + 1:]}
             if valid(kind, cand):
@@ -615,16 +710,21 @@ def run_pg(case, pg, ref_run):
         return {"error": str(e), "procs": [], "refs": {}}
     refs, cache = {}, {}
     tr = trace(pg)
+    us = uses(pg)
     for p in range(pg["procs"]):
         for k, step in enumerate(pg["steps"]):
-            if step[0] != "build":
+            if step[0] == "build":
+                rw, e = resolve(kind, step[1], step[2], tr[p][k]), step[3]
+            elif step[0] == "use":          # what the arguments meant where the sampler was CONSTRUCTED
+                m = us[k][0]
+                rw, e = resolve(kind, pg["steps"][m][1], pg["steps"][m][2], tr[p][m]), step[2]
+            else:
                 continue
-            rw = resolve(kind, step[1], step[2], tr[p][k])
             if rw is None:
                 continue
-            key = (rw[0], rw[1], step[3])
+            key = (rw[0], rw[1], e)
             if key not in cache:
-                cache[key] = ref_run(case, rw[0], rw[1], epoch=step[3])
+                cache[key] = ref_run(case, rw[0], rw[1], epoch=e)
             refs["%d,%d" % (p, k)] = cache[key]
     return {"procs": procs, "refs": refs}
 
@@ -651,6 +751,7 @@ def oracle_pg(case, pg, obs):
         return "process-group history could not be run: " + obs["error"]
     kind = case["kind"]
     tr = trace(pg)
+    us = uses(pg)
     if len(obs["procs"]) != pg["procs"]:
         return "process-group history: %d of %d processes reported" % (len(obs["procs"]), pg["procs"])
     for p, proc in enumerate(obs["procs"]):
@@ -687,18 +788,46 @@ def oracle_pg(case, pg, obs):
                             "(%s), generator seeds %s"
                             % (describe(pg, p, k), step[1], step[2], rec["len"], rec["stream"], rec["result"],
                                rec["seeds"], rw[0], rw[1], ref["len"], ref["stream"], ref["result"], ref["seeds"]))
+            elif step[0] == "use":
+                m, first = us[k]
+                mk = pg["steps"][m]
+                rw = resolve(kind, mk[1], mk[2], tr[p][m])
+                gm = group_of(tr[p][m])
+                built = ("constructed at step %d (%s) with rank=%s, world_size=%s"
+                         % (m, ("joined as rank %d of %d" % gm) if gm else "without a process group", mk[1], mk[2]))
+                if rw is None:
+                    if rec["result"] != "GroupError":
+                        return ("%s: sampler %s: the constructor must raise (no process group to take the default from "
+                                "/ rank out of range), got %s" % (describe(pg, p, k), built, rec["result"]))
+                    continue
+                ref = obs["refs"]["%d,%d" % (p, k)]
+                # the first use carries the events of the construction like the reference run; later uses of the same
+                # object are compared by what they show (len, stream, outcome)
+                same = same_run(rec, ref) if first else (rec["result"] == ref["result"] and rec["len"] == ref["len"]
+                                                         and rec["stream"] == ref["stream"])
+                if not same:
+                    return ("%s: sampler %s, used here (set_epoch(%d), len, list) shows len %s, stream %s (%s), "
+                            "generator seeds %s; what the arguments meant at construction is rank=%d, world_size=%d, and "
+                            "the sampler built with these explicitly shows len %s, stream %s (%s), generator seeds %s"
+                            % (describe(pg, p, k), built, step[2], rec["len"], rec["stream"], rec["result"],
+                               rec["seeds"], rw[0], rw[1], ref["len"], ref["stream"], ref["result"], ref["seeds"]))
     return None
 
 
 def builds(pg, obs):
     """(process, step index, step, events before, record) of every build that ran"""
     tr = trace(pg)
+    us = uses(pg)
     for p, proc in enumerate(obs.get("procs", [])):
         if "steps" not in proc:
             continue
         for k, (step, rec) in enumerate(zip(pg["steps"], proc["steps"])):
             if step[0] == "build" and rec is not None and "step_error" not in rec:
                 yield p, k, step, tr[p][k]["events"], rec
+            elif step[0] == "use" and rec is not None and "step_error" not in rec and us[k][1]:
+                # constructed at step m, first used here: a build with the events BEFORE THE CONSTRUCTION
+                m = us[k][0]
+                yield p, k, ["build", pg["steps"][m][1], pg["steps"][m][2], step[2]], tr[p][m]["events"], rec
 
 
 def coq_events(events):
@@ -748,6 +877,15 @@ def features_pg(pg, obs):
     for s in steps:
         if s[0] == "build":
             yield "pg:build rank=%s,world=%s" % ("None" if s[1] is None else "given", "None" if s[2] is None else "given")
+    tr1 = trace(pg)
+    for k, (m, first) in uses(pg).items():
+        a, b = group_of(tr1[0][m]), group_of(tr1[0][k])
+        yield ("pg:constructed %s, %s %s" % ("in a group" if a else "without group", "first used" if first else "used again",
+                                              "in the same state" if a == b else
+                                              ("without group" if b is None else
+                                               ("in a group" if a is None else "in ANOTHER group / as another rank"))))
+        yield "pg:%s: construct-then-use args rank=%s,world=%s" % (pg["mode"], "None" if steps[m][1] is None else "given",
+                                                                   "None" if steps[m][2] is None else "given")
     if pg["mode"] == "gloo":
         yield "pg:gloo processes=%d" % pg["procs"]
     for _, _, _, _, rec in builds(pg, obs):
